@@ -267,6 +267,38 @@ def get_test_encoding(encoding, key):
     return encoding[key]
 
 
+def library_spellings(xs, ys):
+    """Other spellings of the same library calls."""
+    import pandas
+    import shapely.geometry
+    import xarray
+    a = numpy.asarray(xs, dtype=float)
+    b = numpy.asarray(ys, dtype=float)
+    columns = numpy.c_[a, b]
+    grid = numpy.arange(6).reshape((2, 3), order='C')
+    lifted = numpy.expand_dims(a, axis=0)
+    turned = numpy.transpose(grid, axes=(1, 0))
+    flat = numpy.ravel_multi_index((1, 2), dims=(2, 3), mode='raise', order='C')
+    back = numpy.unravel_index(5, shape=(2, 3), order='C')
+    series = pandas.Series(xs, dtype=float)
+    frame = pandas.DataFrame({'x': xs, 'y': ys})
+    array = xarray.DataArray(grid, dims=('j', 'i'))
+    picked = array.isel(indexers={'j': 0}, drop=False)
+    summed = array.cumsum(dim='i').argmax(dim='i')
+    backwards = list(xs)[slice(None, None, -1)]
+    outline = shapely.geometry.mapping(shapely.geometry.Point(1.0, 2.0))
+    as_dataset = xarray.Dataset.from_dataframe(frame)
+    return (columns.tolist(), lifted.shape, turned.tolist(), int(flat), tuple(int(v) for v in back), series.to_numpy().tolist(), array.to_numpy().tolist(),
+            picked.values.tolist(), summed.values.tolist(), backwards, outline, sorted(as_dataset.data_vars), as_dataset['y'].values.tolist(),
+            grid.tobytes(order='C') == grid.tobytes())
+
+
+def library_keywords_kept(xs):
+    """A keyword that is NOT the documented default stays: Fortran order is another array."""
+    grid = numpy.asarray(xs).reshape((2, 2), order='F')
+    return grid.tolist(), grid.ravel(order='F').tolist(), numpy.stack([grid, grid], axis=1).shape
+
+
 # ---------------------------------------------------------------- collections
 
 def conditional_element(has_edges):
@@ -1329,6 +1361,8 @@ CASES = {
     'try_lookup_continue': [(HOLDER_AB, {'b1'}), (HOLDER_AB, set()), (HOLDER_CA, {'b1', None})],
     'setdefault_statement': [({'a': 1, 'b': 2}, {'a': 0}), ({}, {}), ({'a': None}, {})],
     'get_test': [({'k': 1}, 'k'), ({}, 'k'), ({'k': 0}, 'k')],
+    'library_spellings': [([1, 2, 3], [4.5, 5, 6]), ([7], [8])],
+    'library_keywords_kept': [([1, 2, 3, 4],)],
     'get_test_encoding': [({'k': 1}, 'k'), ({}, 'k'), ({'k': None}, 'k'), ({'k': 0}, 'k')],
     'conditional_element': [(True,), (False,)],
     'conditional_element_negated': [(True,), (False,)],
